@@ -37,7 +37,11 @@ CONSTANTS
     TopOnly,      \* one-hole forms only legal at the outermost level (Final, ClassVar)
     MaxNodes,     \* size bound of the expression (number of forms)
     MaxStack,     \* bound of the generator's stack (depth of right nesting)
-    BugOptionalDropsNone   \* sensitivity switch: a plausible bug in the string route
+    BugOptionalDropsNone,  \* sensitivity switch: a plausible bug in the string route
+    \* One switch per known deviation: FALSE = the behaviour of the current code (the deviation is
+    \* modelled and named), TRUE = the behaviour after the proposed repair (/verif/proposed/C13-fix-*.diff);
+    \* when a repair is committed its switch is set to TRUE in spec/mc/*.cfg and the finding closed.
+    FixedStar, FixedFinalInString, FixedNestedLiteral
 
 X(k, id, args) == [k |-> k, id |-> id, args |-> args]
 V(t, n, a) == [t |-> t, n |-> n, a |-> a]
@@ -346,6 +350,8 @@ RECURSIVE ImplRt(_, _), ImplOriginArgs(_, _), ImplFwd(_, _), ImplStrVisit(_), Im
 \* annotations.py:402 _type_from_runtime -- one arm per branch of the elif chain, in its order
 ImplRt(r, au) ==
     CASE r.k = "strobj" -> ImplFwd(r.args[1], au)                                           \* :405 str
+      [] r.k = "unpackedalias" /\ FixedStar /\ au                                             \* (C13-fix-3) *tuple[...] = Unpack[tuple[...]]
+                          -> Mk("Unpacked", "", <<ImplOriginArgs(r, FALSE)>>)
       [] r.k \in {"alias", "unpackedalias", "bare", "union", "literal", "annotated", "final", "unpack"}
                           -> ImplOriginArgs(r, au)                                            \* :413 get_origin(val) is not None
       [] r.k = "td" -> TDValue                                                                \* :421 _TypedDictMeta
@@ -403,7 +409,10 @@ ImplStrVisit(e) ==
       [] e.k = "plist" -> LET elts == [i \in 1..Len(e.args) |-> ImplStrVisit(e.args[i])]      \* :997
                           IN IF \E i \in 1..Len(elts) : elts[i].k = "raised" THEN X("raised", "", << >>)
                              ELSE X("seq", "list", elts)
-      [] e.k = "star" -> X("raised", "", << >>)                                               \* :970 generic_visit raises
+      [] e.k = "star" ->
+            IF ~FixedStar THEN X("raised", "", << >>)                                         \* :970 generic_visit raises
+            ELSE LET x == ImplStrVisit(e.args[1])                                             \* (C13-fix-3) visit_Starred
+                 IN IF x.k = "raised" THEN x ELSE X("subscripted", "", <<X("known", "", <<NameObj("Unpack")>>), x>>)
       [] e.k = "or" -> LET l == ImplStrVisit(e.args[1]) r == ImplStrVisit(e.args[2])          \* :1025
                        IN IF l.k = "raised" \/ r.k = "raised" THEN X("raised", "", << >>)
                           ELSE X("subscripted", "", <<X("known", "", <<NameObj("Union")>>), l, r>>)
@@ -421,6 +430,13 @@ ImplTypeFromIV(iv, au) ==
       [] iv.k = "subscripted" -> ImplSubscripted(iv.args[1].args[1], Tail(iv.args), au)       \* :701
       [] OTHER -> AnyV("error")                                                               \* :717 "Unrecognized annotation"
 
+RECURSIVE FlattenLiteralIV(_)
+FlattenLiteralIV(ms) ==
+    IF ms = << >> THEN << >>
+    ELSE LET m == Head(ms)
+             nested == m.k = "subscripted" /\ m.args[1] = X("known", "", <<NameObj("Literal")>>)
+         IN (IF nested THEN FlattenLiteralIV(Tail(m.args)) ELSE <<m>>) \o FlattenLiteralIV(Tail(ms))
+
 \* annotations.py:721 _type_from_subscripted_value (root is always a KnownValue here)
 ImplSubscripted(root, members, au) ==
     LET tv(i) == ImplTypeFromIV(members[i], FALSE)
@@ -431,9 +447,10 @@ ImplSubscripted(root, members, au) ==
         special(s) == root.k = "special" /\ root.id = s
     IN CASE special("Union") -> Unite([i \in 1..n |-> tv(i)])                                 \* :767
          [] special("Literal") ->                                                             \* :769
-                IF \A i \in 1..n : members[i].k = "known"
-                THEN Unite([i \in 1..n |-> KnownV(members[i].args[1].id)])
-                ELSE AnyV("error")
+                LET ms == IF FixedNestedLiteral THEN FlattenLiteralIV(members) ELSE members     \* (C13-fix-2)
+                IN IF \A i \in 1..Len(ms) : ms[i].k = "known"
+                   THEN Unite([i \in 1..Len(ms) |-> KnownV(ms[i].args[1].id)])
+                   ELSE AnyV("error")
          [] isTuple ->                                                                        \* :775
                 IF n = 2 /\ members[2] = X("known", "", <<X("ellipsis", "", << >>)>>)
                 THEN Mk("Generic", "tuple", <<tv(1)>>)
@@ -447,6 +464,8 @@ ImplSubscripted(root, members, au) ==
                 Annotate(tv(1), [i \in 1..(n - 1) |-> KnownV(members[i + 1].args[1].id)])
          [] special("Unpack") ->                                                              \* :844
                 IF ~au \/ n # 1 THEN AnyV("error") ELSE Mk("Unpacked", "", <<tv(1)>>)
+         [] FixedFinalInString /\ (special("Final") \/ special("ClassVar")) ->                 \* (C13-fix-1)
+                IF n # 1 THEN AnyV("error") ELSE tv(1)
          [] isCallable ->                                                                     \* :852 -> :1305 _make_callable_from_value
                 IF n # 2 THEN AnyV("error")
                 ELSE IF members[1] = X("known", "", <<X("ellipsis", "", << >>)>>)
@@ -474,9 +493,11 @@ RECURSIVE ImplVisitorEval(_)
 ImplVisitorEval(e) ==
     CASE e.k = "or" -> PyMkUnion("t", <<TConv(ImplVisitorEval(e.args[1])), TConv(ImplVisitorEval(e.args[2]))>>)
       [] e.k = "sub" ->
-            IF \E i \in 1..Len(e.args) : e.args[i].k = "star"
+            IF ~FixedStar /\ \E i \in 1..Len(e.args) : e.args[i].k = "star"
             THEN X("alias", CanonRoot(e.id), <<X("any", "", << >>)>>)
             ELSE PySubscript(e.id, [i \in 1..Len(e.args) |-> ImplVisitorEval(e.args[i])])
+      [] e.k = "star" -> LET a == ImplVisitorEval(e.args[1])                   \* (C13-fix-3) list(alias) = [*alias]
+                         IN IF a.k = "alias" THEN X("unpackedalias", a.id, a.args) ELSE RaiseObj
       [] e.k = "plist" -> X("pylist", "", [i \in 1..Len(e.args) |-> ImplVisitorEval(e.args[i])])
       [] OTHER -> PyEval(e)
 
@@ -523,11 +544,11 @@ RoutesAgree(e) == RoutesAgreeOn(ImplRuntimeRoute(e), ImplStringRoute(e), ImplAst
 \* (a) a starred element inside a subscript (PEP 646 tuple[int, *tuple[str, ...]]): the string route has
 \*     no visit_Starred (NotImplementedError), the runtime route drops the unpacking, the checker's own
 \*     visitor cannot execute the subscript and substitutes tuple[Any]
-Dev_StarInSubscript(e) == HasKind(e, "star")
+Dev_StarInSubscript(e) == ~FixedStar /\ HasKind(e, "star")
 \* (b) Final[X] / ClassVar[X] read from a string: _type_from_subscripted_value has no branch for them
-Dev_FinalInString(e) == HasSubRoot(e, {"Final", "ClassVar"})
+Dev_FinalInString(e) == ~FixedFinalInString /\ HasSubRoot(e, {"Final", "ClassVar"})
 \* (c) Literal[Literal[1], 2] read from a string: only KnownValue members are accepted
-Dev_NestedLiteralInString(e) == HasNestedLiteral(e)
+Dev_NestedLiteralInString(e) == ~FixedNestedLiteral /\ HasNestedLiteral(e)
 
 KnownDeviation(e) == Dev_StarInSubscript(e) \/ Dev_FinalInString(e) \/ Dev_NestedLiteralInString(e)
 
